@@ -20,6 +20,7 @@ func checkC12(c *Ctx) {
 
 	c.checkReaderSymbolsReadable("C12-SYMNAME")
 	c.checkPrintedWordsAreLiterals("C12-WORD")
+	c.checkSignedFraction("C12-SIGNFRAC")
 
 	// ---- C12-ESC
 	printers := map[string]string{"SexpStr.SexpString": "Quote", "SexpChar.SexpString": "QuoteRune"}
@@ -753,4 +754,90 @@ func (c *Ctx) checkPrintedWordsAreLiterals(rule string) {
 			"the reader compares an atom with `"+w+"` (or a literal pattern of the lexer accepts it): the printed value reads back as the value",
 			"the value prints as the bare word `"+w+"`, and the reader has no literal for it: read back as data it is the symbol `"+w+"`, so a list or array that holds the value does not read back equal")
 	}
+}
+
+// checkSignedFraction: C12-SIGNFRAC. "Numeric literals in every supported
+// notation (... fraction ... signed ...) denote their exact value." The number
+// patterns of the lexer (constants, matched here in the checker) accept the
+// signed fraction -.5. The lexer decides "negative number or minus operator"
+// on the sign and the ONE rune after it, by matching those two runes against
+// the same patterns -- and no pattern accepts "-." by itself. So if the
+// patterns accept "-.5", the operator state must treat the point after a
+// minus sign specially: a comparison of the incoming rune with '.', made where
+// the previous rune is known to be '-'.
+func (c *Ctx) checkSignedFraction(rule string) {
+	lnr := c.mustFn(rule, "Lexer.LexNextRune")
+	prevF := c.field("Lexer", "prevrune")
+	if lnr == nil || prevF == nil {
+		c.undecided(rule, "Lexer", "previous rune", token.NoPos, "Lexer.prevrune not found")
+		return
+	}
+	accepts := false
+	twoRunes := false
+	if init := c.SZygo.Func("init"); init != nil {
+		eachInstr(init, func(b *ssa.BasicBlock, i int, in ssa.Instruction) {
+			st, ok := in.(*ssa.Store)
+			if !ok {
+				return
+			}
+			g, ok := st.Addr.(*ssa.Global)
+			if !ok || (g.Name() != "FloatRegex" && g.Name() != "DecimalRegex") {
+				return
+			}
+			call, ok := st.Val.(*ssa.Call)
+			if !ok || len(call.Call.Args) != 1 {
+				return
+			}
+			if k, ok := call.Call.Args[0].(*ssa.Const); ok && k.Value != nil && k.Value.Kind() == constant.String {
+				if re, err := regexp.Compile(constant.StringVal(k.Value)); err == nil {
+					if re.MatchString("-.5") {
+						accepts = true
+					}
+					if re.MatchString("-.") {
+						twoRunes = true
+					}
+				}
+			}
+		})
+	}
+	if !accepts {
+		c.ok(rule, "Lexer", "signed fraction", token.NoPos, "the number patterns do not accept -.5: the notation is not supported, nothing to keep together")
+		return
+	}
+	if twoRunes {
+		c.ok(rule, "Lexer", "signed fraction", token.NoPos, "the number patterns accept the two-rune prefix `-.` themselves")
+		return
+	}
+	found := false
+	eachInstr(lnr, func(b *ssa.BasicBlock, i int, in ssa.Instruction) {
+		bo, ok := in.(*ssa.BinOp)
+		if !ok || bo.Op != token.EQL && bo.Op != token.NEQ {
+			return
+		}
+		if _, isP := bo.X.(*ssa.Parameter); !isP {
+			return
+		}
+		if k, ok := constIntOf(bo.Y); !ok || k != '.' {
+			return
+		}
+		underMinus := guardedBy(b, func(cond ssa.Value) (bool, bool) {
+			c2, ok := cond.(*ssa.BinOp)
+			if !ok || (c2.Op != token.EQL && c2.Op != token.NEQ) {
+				return false, false
+			}
+			if _, isPrev := loadOfField(c2.X, prevF); !isPrev {
+				return false, false
+			}
+			if k, ok := constIntOf(c2.Y); !ok || k != '-' {
+				return false, false
+			}
+			return true, c2.Op == token.EQL
+		})
+		if underMinus {
+			found = true
+		}
+	})
+	c.check(found, rule, "Lexer.LexNextRune", "signed fraction kept together", lnr.Pos(),
+		"after a minus sign in a sign context the lexer looks at a following point separately (the two runes `-.` match no number pattern by themselves)",
+		"the number patterns accept -.5, but the lexer decides on the two runes `-.`, which match no pattern, and nothing treats the point after a minus sign specially: -.5 is read as the operator - followed by 0.5, so [1 -.5] has three elements")
 }
